@@ -9,6 +9,7 @@
 //                     (observed through its virtual node factories) vs. a reference precedence parser (C16b)
 #include "driver.h"
 #include "riddle_parser.h"
+#include "json.h"
 #include <dirent.h>
 #include <fstream>
 #include <sstream>
@@ -571,6 +572,72 @@ static void unit_bytes(uint64_t u)
   vf::count("cases", cases);
 }
 
+// ---- JSON input (smt/json): every byte string over a JSON alphabet through json::from_json ------------------
+static const char JBYTES[] = {'{', '}', '[', ']', '"', ':', ',', '1', '-', '.', 'e', 't', 'n', ' ', '\\', 'a'};
+static void read_json(const std::string &in, const std::string &txt)
+{
+  std::stringstream ss(in);
+  std::string outcome;
+  try
+  {
+    smt::json j = smt::json::from_json(ss);
+    std::stringstream os;
+    j.to_json(os);
+    outcome = "accepted";
+  }
+  catch (const std::exception &e)
+  {
+    outcome = "rejected";
+  }
+  catch (...)
+  {
+    vf::finding("C18:json:non-standard-exception", txt, "json::from_json threw something that is not a std::exception");
+    outcome = "weird";
+  }
+  vf::count(outcome);
+}
+static void unit_json(uint64_t u)
+{
+  uint64_t cases = 0;
+  for (int len = 1; len <= g_len; ++len)
+  {
+    std::vector<int> ix(len, 0);
+    ix[0] = (int)u;
+    while (true)
+    {
+      std::string in;
+      for (int i = 0; i < len; ++i)
+        in += JBYTES[ix[i]];
+      std::string txt = "json " + printable(in);
+      if (vf::begin_case(txt))
+      {
+        ++cases;
+        read_json(in, txt);
+        vf::end_case();
+        if ((cases & 0x3fff) == 5)
+          vf::sample(txt);
+      }
+      int p = len - 1;
+      while (p >= 1 && ++ix[p] == (int)sizeof(JBYTES))
+        ix[p--] = 0;
+      if (p < 1)
+        break;
+    }
+  }
+  if (u == 0)
+    for (const char *n : {"", "{\"a\":1,\"b\":[true,false,null,\"s\",-1.5e3]}", "{\"a\":{\"b\":{\"c\":[[[]]]}}}", "99999999999999999999", "1e999", "[1,2", "{\"a\"", "{\"a\":", "\"abc", "tru", "nul", "fals"})
+    {
+      std::string t2 = std::string("json ") + printable(n);
+      if (vf::begin_case(t2))
+      {
+        ++cases;
+        read_json(n, t2);
+        vf::end_case();
+      }
+    }
+  vf::count("cases", cases);
+}
+
 static std::vector<std::string> g_files;
 static void list_files(const std::string &dir)
 {
@@ -1075,6 +1142,8 @@ int main(int argc, char **argv)
     }
     else if (kind == "bytes")
       read_text(unprintable(rest), c);
+    else if (kind == "json")
+      read_json(unprintable(rest), c);
     else if (kind == "prefix")
     {
       size_t sp2 = rest.rfind(' ');
@@ -1120,6 +1189,20 @@ int main(int argc, char **argv)
     fn = unit_parse;
     opt.crash_key = [](uint64_t, const std::string &, const std::string &what)
     { return "C16:parser:" + std::string(what == "hang" ? "hang" : "abort") + "-on-valid-program"; };
+  }
+  else if (mode == "json")
+  {
+    g_len = th ? 6 : 5;
+    n_units = sizeof(JBYTES);
+    fn = unit_json;
+    opt.crash_key = [](uint64_t, const std::string &text, const std::string &what)
+    {
+      std::string in = unprintable(text.substr(5));
+      std::string shape = in.find('"') != std::string::npos ? "string" : in.find_first_of("{[") != std::string::npos ? "container"
+                                                                      : in.find_first_of("0123456789-.") != std::string::npos ? "number"
+                                                                                                                              : "other";
+      return "C18:json:" + std::string(what == "hang" ? "hang" : "abort") + ":" + shape;
+    };
   }
   else if (mode == "bytes")
   {
